@@ -55,6 +55,7 @@ type Contract struct {
 	FuncT   types.Type
 	ParentKey, ParentRecv string
 	Params  []string // optional explicit parameter names: func (X).M(a, b)
+	CallPre map[string][]Clause // "Callee@n" -> caller-specific obligations checked right before that call (arg0.. = actual arguments)
 }
 
 type GhostDecl struct {
@@ -151,6 +152,7 @@ type ContractSet struct {
 }
 
 var reFunc = regexp.MustCompile(`^func\s+(?:\(([^)]*)\)\s*\.)?\s*([A-Za-z_][A-Za-z0-9_$]*)\s*(?:\(([^)]*)\))?\s*$`)
+var reCallPre = regexp.MustCompile(`^callpre(?:\[([^\]]*)\])?\s+([^\s:]+@\d+)\s*:\s*(.*)$`)
 var reLabel = regexp.MustCompile(`^(requires|ensures|lensures|censures|invariant|decreases|assume)(?:\[([^\]]*)\])?\s*(?:(\d+)\s*:)?\s*(.*)$`)
 
 type rawLine struct {
@@ -434,6 +436,17 @@ func parseContractSource(cs *ContractSet, file, src, pkgPath string) error {
 					why = strings.TrimSpace(parts[1])
 				}
 				cur.Absorbs[strings.TrimSpace(parts[0])] = why
+			case "callpre":
+				// callpre[label] Callee@n: expr  - checked in this function right before its n-th call of Callee
+				m := reCallPre.FindStringSubmatch(t)
+				if m == nil {
+					return fmt.Errorf("%s:%d: bad callpre (want `callpre[label] Callee@n: expr`)", rl.file, rl.line)
+				}
+				if cur.CallPre == nil {
+					cur.CallPre = map[string][]Clause{}
+				}
+				cur.CallPre[m[2]] = append(cur.CallPre[m[2]], Clause{Kind: "callpre", Label: m[1], Text: strings.TrimSpace(m[3]), File: rl.file, Line: rl.line})
+				lastClause = nil
 			case "requires", "ensures", "lensures", "censures", "invariant", "decreases", "assume":
 				m := reLabel.FindStringSubmatch(t)
 				if m == nil {
